@@ -19,6 +19,7 @@ Tie of the Lean model (lean/Scico/Model/Adjoint.lean) and theorems (lean/Scico/P
 from __future__ import annotations
 
 import json
+import os
 import warnings
 from pathlib import Path
 
@@ -724,6 +725,8 @@ def correspond(ctx, model):
     for f in sorted(cdir.glob("*.json")) if cdir.exists() else []:
         case = json.loads(f.read_text())
         ctx.count("corpus")
+        if case.get("nox64"):
+            continue  # run by the x64-off worker stream (nox64_stream collects them)
         if case.get("types"):
             run_types_case(ctx, model, case)
         elif "tree" in case:
@@ -749,8 +752,8 @@ def correspond(ctx, model):
     dfull = G.derived_grid()
     unary = [c for c in dfull if c["form"] not in ("add", "sub", "comp")]
     binary = [c for c in dfull if c["form"] in ("add", "sub", "comp")]
-    pick_u = [unary[int(i)] for i in rng.permutation(len(unary))[: ctx.n(50, 500)]]
-    pick_b = [binary[int(i)] for i in rng.permutation(len(binary))[: ctx.n(70, 300)]]
+    pick_u = [unary[int(i)] for i in rng.permutation(len(unary))[: ctx.n(40, 500)]]
+    pick_b = [binary[int(i)] for i in rng.permutation(len(binary))[: ctx.n(55, 300)]]
     ctx.extra["derived_grid"] = {"unary_total": len(unary), "unary_run": len(pick_u), "binary_total": len(binary), "binary_run": len(pick_b)}
     short = G.shortcut_grid()
     ctx.extra["derived_grid"]["shortcut_pairs_run"] = len(short)
@@ -759,7 +762,7 @@ def correspond(ctx, model):
     fam = lambda c: c["cls"] in ("Diagonal", "ScaledIdentity", "Identity")
     always = [c for c in short if c["form"] == "comp" and fam(c["a"]) and fam(c["b"])]  # cheap: run in both tiers
     rest = [c for c in short if not (c["form"] == "comp" and fam(c["a"]) and fam(c["b"]))]
-    pick_s = rest if ctx.thorough else [rest[int(i)] for i in rng.permutation(len(rest))[:50]]
+    pick_s = rest if ctx.thorough else [rest[int(i)] for i in rng.permutation(len(rest))[:40]]
     for cfg in always + pick_s:
         run_config(ctx, model, cfg, rng, views=False, stream="shortcut")
     _mark("derived")
@@ -784,6 +787,9 @@ def correspond(ctx, model):
     # 7. dtype / shape layer: guards of adj, declared metadata, "adj never fails for a conforming input" -------------
     types_stream(ctx, model, rng)
     _mark("types")
+    # 8. default precision mode (x64 disabled), subprocess ------------------------------------------------------------
+    nox64_stream(ctx, model, rng)
+    _mark("x64-off")
 
 
 def run_tree_case(ctx, model, tree, leaves, rng, stream="tree"):
@@ -1165,6 +1171,99 @@ def run_types_case(ctx, model, case):
         types_node(ctx, model, g, nd, lw, fl, coded, stream="corpus-types")
 
 
+# ----------------------------------------------------------------------------------------------------------
+# the library's default precision mode (x64 disabled)
+
+KNOWN_XRAY3_DONATE = "xray3d-adj-donated-buffer"
+_DT_KEYS = ("dt", "idt", "odt", "hdt")
+
+
+def _is32(cfg):
+    """configuration whose dtypes (recursively) are all 32-bit, or that takes the library defaults"""
+    if isinstance(cfg, dict):
+        for k, v in cfg.items():
+            if k in _DT_KEYS and isinstance(v, str) and v not in ("float32", "complex64"):
+                return False
+            if isinstance(v, (dict, list)) and not _is32(v):
+                return False
+    elif isinstance(cfg, list):
+        return all(_is32(v) for v in cfg)
+    return True
+
+
+def nox64_configs():
+    cfgs = [c for c in G.grid() if _is32(c)]
+    # XRayTransform3D around MAX_SLICE_LEN: one slab that IS the whole volume (n0 <= 10), two and three slabs
+    for n0 in (1, 4, 10, 11, 25):
+        cfgs.append(G._seeded({"cls": "XRayTransform3D", "ishape": [n0, 2, 2], "det": [n0 + 2, 4], "angles": [0.0, 0.4], "seq": "Y"}))
+        cfgs.append(G._seeded({"cls": "XRayTransform3D", "ishape": [n0, 1, 2], "det": [3, 3], "angles": [0.3], "seq": "Z", "shift": [-0.5, 0.25]}))
+    return cfgs
+
+
+def run_nox64_worker(cfgs):
+    import subprocess
+    import sys as _sys
+
+    env = {k: v for k, v in os.environ.items() if k != "JAX_ENABLE_X64"}
+    env["SCICO_REPO"] = str(common.REPO)
+    env["JAX_PLATFORMS"] = "cpu"
+    p = subprocess.run([_sys.executable, str(Path(__file__).resolve().parent / "adjoint_nox64_worker.py")], input=json.dumps(cfgs),
+                       capture_output=True, text=True, env=env, timeout=3000)
+    rows = []
+    for line in p.stdout.splitlines():
+        try:
+            rows.append(json.loads(line))
+        except json.JSONDecodeError:
+            continue
+    if any("infra" in r for r in rows) or len([r for r in rows if "i" in r]) != len(cfgs):
+        raise common.Infra(f"x64-off worker: rc={p.returncode} rows={len(rows)}/{len(cfgs)} {p.stderr[-600:]}")
+    return rows
+
+
+def nox64_oracle(case):
+    rows = run_nox64_worker([case["cfg"]])
+    return rows[0].get("fail")
+
+
+def nox64_stream(ctx, model, rng):
+    """'applying the adjoint never fails for a conforming input' and the adjoint identity in the library's DEFAULT precision
+    mode: a subprocess WITHOUT jax_enable_x64 builds every 32-bit / default-dtype configuration of the grid (thorough: all;
+    quick: a seeded sample with every class) and evaluates eval / adj / adj(eval) twice on conforming arguments"""
+    full = nox64_configs()
+    must = [c for c in full if c["cls"] == "XRayTransform3D" and c["ishape"][0] in (1, 4, 10, 11, 25) and len(c["angles"]) == 2]
+    cdir = common.CORPUS_DIR / "C01"
+    for f in sorted(cdir.glob("*.json")) if cdir.exists() else []:
+        case = json.loads(f.read_text())
+        if case.get("nox64"):
+            must.append(case["cfg"])
+            if case["cfg"] not in full:
+                full.append(case["cfg"])
+    if ctx.thorough:
+        cfgs = full
+    else:
+        idx = rng.permutation(len(full))
+        per, chosen = {}, []
+        for i in idx:
+            c = full[int(i)]["cls"]
+            if per.get(c, 0) < 1:
+                per[c] = per.get(c, 0) + 1
+                chosen.append(full[int(i)])
+        cfgs = chosen + [c for c in must if c not in chosen]
+    ctx.extra["nox64"] = {"configurations_total": len(full), "configurations_run": len(cfgs)}
+    rows = run_nox64_worker(cfgs)
+    for r in rows:
+        cfg = cfgs[r["i"]]
+        if "skip" in r:
+            ctx.case({"stream": "x64-off", "cls": cfg["cls"], "skip": r["skip"][:80]}, None)
+            ctx.count("x64-off:rejected-at-construction")
+            continue
+        ctx.case({"stream": "x64-off", "cls": cfg["cls"]}, None if r.get("empty") else ("x64-off", G.key_of(cfg)), sample_every=37)
+        ctx.count("x64-off:" + cfg["cls"])
+        if "fail" in r:
+            ctx.disagree("adjoint.x64_off", {"cfg": cfg, "nox64": True}, r["fail"], "eval / adj total and adjoint pair in the default precision mode",
+                         oracle=nox64_oracle)
+
+
 def types_exhaustive(ctx, model, rng):
     """EXHAUSTIVE small scope of the dtype layer: every derived construction applied to leaves of EVERY combination of input
     and output dtype (16 generic leaves (2,)->(2,)): 16 x {neg, T, H, conj, gram, c* and /c for the 8 scalar typings} and
@@ -1381,7 +1480,9 @@ def search(ctx, model, why):
 def replay(ctx, model, case):
     common.setup_scico()
     c = case.get("case", case)
-    if c.get("types"):
+    if c.get("nox64"):
+        r = nox64_oracle(c)
+    elif c.get("types"):
         r = Y.total_oracle(c)
     elif "spectral" in c:
         r = spectral_oracle(c)
